@@ -1,6 +1,7 @@
 //! xsgh — runs the real xml_schema_generator (path dependency on /repo, rebuilt from the
 //! working tree) on generated inputs and writes Coq case files in which the model is
 //! evaluated on the same inputs.
+mod batch;
 mod bytesgen;
 mod c15;
 mod cli;
@@ -80,6 +81,8 @@ fn main() {
         "C15" => c15::run(&mut ctx),
         "C16" => ops::run(&mut ctx),
         "C01" => docprops::c01(&mut ctx),
+        "C02" => batch::run(&mut ctx, false),
+        "C13" => batch::run(&mut ctx, true),
         "C03" => docprops::c03(&mut ctx),
         "C04" => docprops::c04(&mut ctx),
         "C05" => docprops::c05(&mut ctx),
